@@ -521,7 +521,9 @@ func (this *Writer) writeHeader() *IOError {
 // Write writes len(block) bytes from block to the underlying data stream.
 // Returns the number of bytes written from block (0 <= n <= len(block)) and
 // any error encountered that caused the write to stop early.
-func (this *Writer) Write(block []byte) (int, error) {
+func (this *Writer) Write(block []byte) (n int, err error) {
+	defer this.recoverStreamError(&err)
+
 	if atomic.LoadInt32(&this.closed) == 1 || atomic.LoadInt32(&this.closing) == 1 {
 		return 0, &IOError{msg: "Stream closed", code: kanzi.ERR_WRITE_FILE}
 	}
@@ -578,10 +580,12 @@ func (this *Writer) Write(block []byte) (int, error) {
 // Close writes the buffered data to the writer then writes
 // a final empty block and releases resources.
 // Close makes the bitstream unavailable for further writes. Idempotent.
-func (this *Writer) Close() error {
+func (this *Writer) Close() (err error) {
 	if atomic.LoadInt32(&this.closed) == 1 {
 		return nil
 	}
+
+	defer this.recoverStreamError(&err)
 
 	if atomic.LoadInt32(&this.finalized) == 0 {
 		if atomic.CompareAndSwapInt32(&this.closing, 0, 1) == false {
@@ -621,6 +625,23 @@ func (this *Writer) Close() error {
 	}
 
 	return nil
+}
+
+// The output bitstream reports a failure of the underlying writer by panicking.
+// The encoding tasks recover such panics; this does the same for the bitstream
+// accesses made in the calling goroutine (stream header, end of stream marker).
+func (this *Writer) recoverStreamError(err *error) {
+	if r := recover(); r != nil {
+		// The bitstream may be in an inconsistent state: no more blocks can be written
+		atomic.StoreInt32(&this.blockID, _CANCEL_TASKS_ID)
+
+		switch v := r.(type) {
+		case error:
+			*err = &IOError{msg: v.Error(), code: kanzi.ERR_WRITE_FILE}
+		default:
+			*err = &IOError{msg: fmt.Sprint(v), code: kanzi.ERR_WRITE_FILE}
+		}
+	}
 }
 
 func (this *Writer) processBlock() error {
